@@ -68,7 +68,7 @@ run.disagreements.clear()
 # 4. the random workbook driver: events as recorded / a response changed / one set step dropped from the event's constants
 from checks import wbdrive        # noqa: E402
 evs = []
-for seed in range(900, 960):
+for seed in range(900, 1300):
     evs += [x for x in wbdrive.drive(seed, run.work, 'c04') if 'build_failed' not in x]
 clean = lambda es: [{k: x[k] for k in ('ast', 'sheet', 'cells', 'names', 'res', 'addr', 'text')} for x in es]
 res = trace.validate(run, clean(evs), module='Trace_Local', name='local-asis')
